@@ -254,7 +254,7 @@ def verify_consequent_load(run, RP=RP):
                                                              z3.Implies(jS + 1 < lc, gpos(concl[jS]) < gpos(concl[jS + 1])))), fn=fq, meta={"replay": RP}))
 
 # ------------------------------------------------------------------------------------------------ Antecedent.load
-def verify_antecedent_load(run):
+def verify_antecedent_load(run, RP=RP):
     src = run.src
     fq = "rule.Antecedent.load"
     fn = src.func("rule", "Antecedent.load")
@@ -272,6 +272,36 @@ def verify_antecedent_load(run):
     gstart, gcnt = z3.Function("gstart", Ref, z3.IntSort()), z3.Function("gcnt", Ref, z3.IntSort())
     nP = z3.Function("nP", z3.IntSort(), z3.IntSort())
 
+    # FUNCTIONAL contract (ghosts): npos(node) = position of the token at which the node was created (a proposition: its variable token; an operator: its own
+    # token), node_at(position) = that node, made(position) = a node was created there, tstart(node) = first token of the node's span.  Every node is the standard
+    # postfix reading of its span: a proposition is `variable is hedge* term` (hedges in text order), an operator at position g has right = the node whose span ends
+    # at g - 1 and left = the node whose span ends where right's begins.
+    npos, tstart = z3.Function("created_at_token", Ref, z3.IntSort()), z3.Function("span_start", Ref, z3.IntSort())
+    node_at, made = z3.Function("node_created_at", z3.IntSort(), Ref), z3.Function("node_was_created_at", z3.IntSort(), z3.BoolSort())
+    pS, iS = z3.Int("p*"), z3.Int("i*")
+    VNAME, TNAME = sc.field_key("InputVariable", "name"), sc.field_key("Term", "name")
+    IS_ = strc("is")
+
+    def tend(H, x):
+        """last token of a COMPLETE node's span"""
+        nh = z3.Length(H["Proposition.hedges"][x])
+        return z3.If(cls_of(x) == PROP, npos(x) + 1 + nh + z3.If(H["Proposition.term"][x] != NONE, 1, 0), npos(x))
+
+    def is_node(x, k):
+        return z3.And(x != NONE, 0 <= npos(x), npos(x) < k, made(npos(x)), node_at(npos(x)) == x)
+
+    def shape(H, seq, x, k, complete):
+        g = npos(x)
+        hs = H["Proposition.hedges"][x]
+        prop = [H[VNAME][H["Proposition.variable"][x]] == seq[g], tstart(x) == g,
+                z3.Implies(z3.And(iS >= 0, iS < z3.Length(hs)), z3.And(hs[iS] != NONE, hedge_tok(hs[iS]) == seq[g + 2 + iS]))]
+        if complete:
+            prop += [seq[g + 1] == IS_, z3.Implies(H["Proposition.term"][x] != NONE, H[TNAME][H["Proposition.term"][x]] == seq[g + 2 + z3.Length(hs)])]
+        l_, r_ = H["Operator.left"][x], H["Operator.right"][x]
+        oper = [H["Operator.name"][x] == seq[g], is_node(l_, g), is_node(r_, g), npos(l_) < npos(r_), tend(H, r_) + 1 == g, tend(H, l_) + 1 == tstart(r_), tstart(x) == tstart(l_),
+                tstart(l_) >= 0, tstart(r_) <= npos(r_), tstart(l_) <= npos(l_)]
+        return z3.If(cls_of(x) == PROP, z3.And(*prop), z3.And(*oper))
+
     def tile(stack, ls, j, k):
         return z3.Implies(z3.And(j >= 0, j < ls), z3.And(gcnt(stack[j]) >= 1, z3.Implies(j == 0, gstart(stack[j]) == 0),
                                                         gstart(stack[j]) + gcnt(stack[j]) == z3.If(j + 1 < ls, gstart(stack[j + 1]), nP(k))))
@@ -280,13 +310,13 @@ def verify_antecedent_load(run):
         out = []
         if "__newprop__" in q.env:
             r = q.env["__newprop__"]
-            out += [nP(k + 1) == nP(k) + 1, gstart(r) == nP(k), gcnt(r) == 1]
+            out += [nP(k + 1) == nP(k) + 1, gstart(r) == nP(k), gcnt(r) == 1, npos(r) == k, node_at(k) == r, made(k), tstart(r) == k]
         elif "__newop__" in q.env:
             r = q.env["__newop__"]
             l_, r_ = q.heap["Operator.left"][r], q.heap["Operator.right"][r]
-            out += [nP(k + 1) == nP(k), gstart(r) == gstart(l_), gcnt(r) == gcnt(l_) + gcnt(r_)]
+            out += [nP(k + 1) == nP(k), gstart(r) == gstart(l_), gcnt(r) == gcnt(l_) + gcnt(r_), npos(r) == k, node_at(k) == r, made(k), tstart(r) == tstart(l_)]
         else:
-            out += [nP(k + 1) == nP(k)]
+            out += [nP(k + 1) == nP(k), z3.Not(made(k))]
         return out
 
     def node_ok(H, x, complete=True):
@@ -311,12 +341,24 @@ def verify_antecedent_load(run):
                                                           z3.Implies(jS < ls - 1, alloc(stack[jS]) < alloc(stack[ls - 1])),      # the top is the newest object: elements are distinct
                                                           z3.Implies(z3.Or(jS < ls - 1, z3.BoolVal(not top_open)), node_ok(H, stack[jS], complete=True))))
         base = [H["Antecedent.expression"][self_] == NONE, elems, tile(stack, ls, jS, k), nP(k) >= 0, z3.Implies(ls == 0, nP(k) == 0)]
+        # functional part: every stack element is a node; the spans of the stack elements tile the tokens read so far; every node created so far has its shape
+        top = stack[ls - 1]
+        open_top = lambda x: z3.And(z3.BoolVal(top_open), x == top)        # noqa
+        base += [z3.Implies(z3.And(jS >= 0, jS < ls), z3.And(is_node(stack[jS], k), z3.Implies(jS == 0, tstart(stack[jS]) == 0),
+                                                             z3.Implies(z3.And(jS + 1 < ls), tend(H, stack[jS]) + 1 == tstart(stack[jS + 1])),
+                                                             z3.Implies(z3.And(jS + 1 < ls), npos(stack[jS]) < npos(stack[jS + 1])))),
+                 z3.Implies(z3.And(pS >= 0, pS < k, made(pS)), z3.And(npos(node_at(pS)) == pS, node_at(pS) != NONE, alloc(node_at(pS)) < ex_.now(p),
+                                                                       z3.Or(cls_of(node_at(pS)) == PROP, cls_of(node_at(pS)) == OPER),
+                                                                       z3.If(open_top(node_at(pS)), shape(H, seq, node_at(pS), k, False), shape(H, seq, node_at(pS), k, True))))]
         if st == S["variable"]:
-            return z3.And(*base, ls == 0)
+            return z3.And(*base, ls == 0, k == 0)
         if st == VA:
-            return z3.And(*base, ls > 0)
+            return z3.And(*base, ls > 0, tend(H, top) + 1 == k)
         cur = z3.And(ls > 0, prop.r == stack[ls - 1], prop.r != NONE, cls_of(prop.r) == PROP, H["Proposition.variable"][prop.r] != NONE) if isinstance(prop, RefV) else z3.BoolVal(False)
-        return z3.And(*base, cur)
+        nh = z3.Length(H["Proposition.hedges"][top])
+        if st == S["is"]:
+            return z3.And(*base, cur, npos(top) + 1 == k, nh == 0, H["Proposition.term"][top] == NONE)
+        return z3.And(*base, cur, npos(top) + 2 + nh == k, seq[npos(top) + 1] == IS_, H["Proposition.term"][top] == NONE)
 
     def inst(ex_, p, k, seq):
         # instances of the element invariant at the positions the body pops (top and second from top)
@@ -330,6 +372,15 @@ def verify_antecedent_load(run):
             out.append(z3.Implies(j >= 0, z3.And(alloc(stack[j]) < ex_.now(p), node_ok(H, stack[j], complete=(off == 2 or st not in (S["is"], HT))))))
         for j in (ls - 1, ls - 2, ls - 3, jS + 1, jS - 1):
             out.append(tile(stack, ls, j, k))
+        # the functional clauses at the indices the body and the goals touch: top, second, third of the stack, neighbours of j*; the nodes at the positions of
+        # those elements, of p*, and of the children of the node at p*
+        base = inv(ex_, p, k, seq)
+        for j in (ls - 1, ls - 2, ls - 3, jS + 1, jS - 1):
+            out.append(z3.substitute(base, (jS, j)))
+        hs_top = H["Proposition.hedges"][stack[ls - 1]]
+        for pos in (npos(stack[ls - 1]), npos(stack[ls - 2]), npos(stack[jS]), npos(H["Operator.left"][node_at(pS)]), npos(H["Operator.right"][node_at(pS)])):
+            out.append(z3.substitute(base, (pS, pos)))
+        out.append(z3.substitute(base, (pS, npos(stack[ls - 1])), (iS, z3.Length(hs_top) - 1)))
         return out
 
     contracts = {"Proposition": PropositionCtor(), "Operator": OperatorCtor()}
@@ -352,10 +403,12 @@ def verify_antecedent_load(run):
                loops={0: LoopSpec(inv, inst=inst, ghost=ghost, name="loop0", modifies={"Proposition.variable", "Proposition.hedges", "Proposition.term", "Operator.name", "Operator.left", "Operator.right"},
                                   cases=[{"state": v} for v in (S["variable"], S["is"], HT, VA)])}, fnname=fq)
     pre = [self_ != NONE, eng != NONE, nP(0) == 0]          # nP(0) == 0: ghost definition
-    ex.skolems = [jS, jS + 1, jS - 1]
+    ex.skolems = [jS, jS + 1, jS - 1, iS]
     outs = ex.run_fn(fn, HPath({"self": RefV(self_, "Antecedent"), "engine": RefV(eng, "Engine")}, pre, H0))
     ntok = None
-    emit(run, ex, fq, [], RP)
+    from pyvc.hlib import split_invariants
+    split_invariants(ex)
+    emit(run, ex, fq, [], RP, retries=1)
     raise_obligations(run, fq, outs)
     for i, (kind, val, q) in enumerate(outs):
         tag = f"[path{i}]"
@@ -372,6 +425,14 @@ def verify_antecedent_load(run):
             run.add(undecided(f"{fq}/accepts_only_complete_tree{tag}", "token sequence of the loop not found", fn=fq))
         else:
             run.add(Obl(f"{fq}/accepts_only_complete_tree{tag}", q.pc + str_distinct(), z3.And(gstart(e_) == 0, gcnt(e_) == nP(L)), fn=fq, meta={"replay": RP}))
+            # ... and it is the standard postfix reading of the whole token list: the root spans [0, L), and every node created (the root and, through the
+            # children clauses, all its descendants) has the shape of its own tokens
+            toks_ = split_fn(q.env["postfix"].t)
+            o_ = Obl(f"{fq}/ensures.tree_is_the_postfix_reading_of_the_tokens{tag}", q.pc + str_distinct(),
+                     z3.And(is_node(e_, L), tstart(e_) == 0, tend(q.heap, e_) + 1 == L,
+                            z3.Implies(z3.And(pS >= 0, pS < L, made(pS)), z3.And(npos(node_at(pS)) == pS, shape(q.heap, toks_, node_at(pS), L, True)))), fn=fq, meta={"replay": RP})
+            o_.retries = 1
+            run.add(o_)
 
 
 # ------------------------------------------------------------------------------------------------ Function.infix_to_postfix (parentheses)
